@@ -145,6 +145,7 @@ impl Obs {
 
 thread_local! {
     static LAST_PANIC: RefCell<Option<String>> = RefCell::new(None);
+    static VALIDATED: RefCell<std::collections::BTreeSet<u64>> = RefCell::new(std::collections::BTreeSet::new());
 }
 
 pub fn install_panic_hook() {
@@ -298,17 +299,41 @@ pub fn check_invariants(parser: &OptionParser<Val>, budget: u64) -> Obs {
 /// build a parser from its definition with all fault plans off; `None` when the definition is
 /// rejected by `check_invariants` or cannot be built (documented usage errors)
 pub fn build_checked(o: &Opts) -> Option<OptionParser<Val>> {
+    // check_invariants pretty-prints the whole metadata tree every time it is called; a
+    // definition that passed once in this thread is not checked again
+    let key = {
+        let mut h = crate::stats::Fnv::new();
+        h.write_str(&format!("{:?}", o));
+        h.finish()
+    };
+    let known = VALIDATED.with(|v| v.borrow().contains(&key));
+    if known {
+        return Some(build_unchecked(o));
+    }
     world::with(|s| {
         s.cb.enabled = false;
         s.budget = u64::MAX;
+        s.mute = true;
     });
     let r = catch_unwind(AssertUnwindSafe(|| {
         let p = build_opts(o);
         p.check_invariants(false);
         p
     }));
-    world::with(|s| s.reset_observations());
+    world::with(|s| {
+        s.mute = false;
+        s.reset_observations()
+    });
     LAST_PANIC.with(|p| p.borrow_mut().take());
+    if r.is_ok() {
+        VALIDATED.with(|v| {
+            let mut v = v.borrow_mut();
+            if v.len() > 20_000 {
+                v.clear();
+            }
+            v.insert(key);
+        });
+    }
     r.ok()
 }
 
@@ -645,7 +670,7 @@ pub fn on_fresh_thread<R: Send + 'static>(
     f: impl FnOnce() -> R + Send + 'static,
 ) -> R {
     let handle = std::thread::Builder::new()
-        .stack_size(16 << 20)
+        .stack_size(4 << 20)
         .spawn(move || {
             world::install();
             world::with(|s| s.env = env);
